@@ -14,6 +14,12 @@ import (
 type lossState struct {
 	side connSide
 
+	// Packet numbers deliberately skipped in each space, in increasing order.
+	// The marker kept in the sent packet list is dropped once older packets
+	// are acknowledged; an acknowledgement of a skipped number must be
+	// detected after that as well.
+	skipped [numberSpaceCount][]packetNumber
+
 	// True when the handshake is confirmed.
 	// https://www.rfc-editor.org/rfc/rfc9001#section-4.1.2
 	handshakeConfirmed bool
@@ -185,6 +191,7 @@ func (c *lossState) skipNumber(now time.Time, space numberSpace) {
 	sent.time = now
 	sent.state = sentPacketUnsent
 	c.spaces[space].add(sent)
+	c.skipped[space] = append(c.skipped[space], sent.num)
 }
 
 // packetSent records a sent packet.
@@ -240,6 +247,24 @@ func (c *lossState) receiveAckStart() {
 // receiveAckRange processes a range within an ACK frame.
 // The ackf function is called for each newly-acknowledged packet.
 func (c *lossState) receiveAckRange(now time.Time, space numberSpace, rangeIndex int, start, end packetNumber, ackf func(numberSpace, *sentPacket, packetFate)) error {
+	if sk := c.skipped[space]; len(sk) > 0 {
+		// Find the first skipped number at or after start.
+		i, j := 0, len(sk)
+		for i < j {
+			h := int(uint(i+j) >> 1)
+			if sk[h] < start {
+				i = h + 1
+			} else {
+				j = h
+			}
+		}
+		if i < len(sk) && sk[i] < end {
+			return localTransportError{
+				code:   errProtocolViolation,
+				reason: "acknowledgement for unsent packet",
+			}
+		}
+	}
 	// Limit our range to the intersection of the ACK range and
 	// the in-flight packets we have state for.
 	if s := c.spaces[space].start(); start < s {
